@@ -121,7 +121,10 @@ def to_hashable(data: Any) -> Any:
     if isinstance(data, list):
         return tuple(map(to_hashable, data))
     elif isinstance(data, dict):
-        sorted_keys = sorted(data)
+        try:
+            sorted_keys = sorted(data)
+        except TypeError:  # keys of different types (non-JSON input data)
+            sorted_keys = sorted(data, key=lambda k: (type(k).__name__, repr(k)))
         return tuple(sorted_keys + [to_hashable(data[k]) for k in sorted_keys])
     else:
         return data
